@@ -174,6 +174,9 @@ structure FloydIR where
   trParam : String
   /-- default values of the parameters, as source text (`transform=None`) -/
   defaults : List (String × String)
+  /-- where every global name the function uses comes from (`translate/cores.py` resolves imports to definitions):
+  `(name, "def <file>:<name>" | "class <file>:<name>" | "module <m>" | "builtin" | "from <file>:<name>")`, sorted by name -/
+  origins : List (String × String)
   /-- the `if transform is not None: … else: …` tree as a decision list, first match wins
   (`if c: X else: Y` contributes `(¬c ↦ Y)` first when `c` is `… is not None`) -/
   dispatch : List (Cond × Arm)
@@ -371,16 +374,18 @@ def refEpilogue : List Stmt :=
     .setMask "hops" (mSelf "I") (.lit 0),
     .setMask "Pmat" (mSelf "I") (.lit 0) ]
 
+def refOrigins : List (String × String) := [("ValueError", "builtin"), ("np", "module numpy"), ("range", "builtin")]
+
 /-- the decidable obligation generated for `distance_wei_floyd` -/
 def floydOk (ir : FloydIR) : Bool :=
-  ir.recognised && ir.param == "adjacency" && ir.trParam == "transform" && ir.defaults == [("transform", "None")] &&
+  ir.recognised && ir.param == "adjacency" && ir.trParam == "transform" && ir.defaults == [("transform", "None")] && ir.origins == refOrigins &&
   ir.dispatch == refDispatch && ir.init == refInit &&
   ir.loopVar == "k" && ir.loopBound == "n" && ir.body == refBody &&
   ir.epilogue == refEpilogue && ir.ret == ["SPL", "hops", "Pmat"]
 
 /-- the reference program as a value (non-vacuity of `floydOk`) -/
 def refIR : FloydIR :=
-  { recognised := true, param := "adjacency", trParam := "transform", defaults := [("transform", "None")],
+  { recognised := true, param := "adjacency", trParam := "transform", defaults := [("transform", "None")], origins := refOrigins,
     dispatch := refDispatch, init := refInit,
     loopVar := "k", loopBound := "n", body := refBody, epilogue := refEpilogue, ret := ["SPL", "hops", "Pmat"] }
 
